@@ -76,6 +76,17 @@ class SeekableSource:
                          'close', self._pos, 0))
 
 
+class DuckSeekableSource:
+    """The same stream as SeekableSource but duck-typed: read/seek/tell and no
+    seekable()/readable() methods, so the library has to probe it."""
+    __init__ = SeekableSource.__init__
+    _enter = SeekableSource._enter
+    read = SeekableSource.read
+    seek = SeekableSource.seek
+    tell = SeekableSource.tell
+    close = SeekableSource.close
+
+
 class NonSeekableSource:
     """A readable stream without seek/tell (a pipe)."""
 
@@ -166,6 +177,14 @@ class SeekableDest:
             return len(data)
         finally:
             self._inside -= 1
+
+
+class DuckSeekableDest:
+    """SeekableDest without a seekable() method (probed through seek/tell)."""
+    __init__ = SeekableDest.__init__
+    seek = SeekableDest.seek
+    tell = SeekableDest.tell
+    write = SeekableDest.write
 
 
 class NonSeekableDest:
